@@ -168,18 +168,32 @@ theorem lastWork_pruned (ar ar' : Arena) (x : Nat) (P : Int) (b : Branch) (hb : 
 theorem forestOK_cleanWith (r : Repo) (hf : ForestOK r) (hrf : RootFirst r) (depth : Int) (hd : 0 ≤ depth) :
     ForestOK (cleanWith r depth).1 ∧ (cleanWith r depth).1.branches = r.branches ∧
     (cleanWith r depth).1.longest = r.longest ∧
-    (∀ x ∈ r.branches, lastWork (cleanWith r depth).1.arena x = lastWork r.arena x) := by
+    (∀ x ∈ r.branches, lastWork (cleanWith r depth).1.arena x = lastWork r.arena x) ∧
+    (∀ x, x ≠ r.longest → (cleanWith r depth).1.arena[x]? = r.arena[x]?) ∧
+    (∃ (c : Nat) (b' : Branch), c < (r.br r.longest).headers.length ∧ (cleanWith r depth).1.arena[r.longest]? = some b' ∧
+      b'.headers = (r.br r.longest).headers.drop c ∧ b'.offset = (r.br r.longest).offset + (c : Int) ∧
+      b'.parentHeight = (r.br r.longest).parentHeight ∧
+      b'.hmap = ((r.br r.longest).headers.take c).foldl (fun m d => HMap.del m d.hdr.id) (r.br r.longest).hmap) := by
   obtain ⟨others, hbl, hroot⟩ := hrf
+  have hlgm0 : r.longest ∈ r.branches := by rw [hbl]; simp
+  have hblg0 := br_of_lt r r.longest (hf.valid r.longest hlgm0)
+  have hL0 : 0 < (r.br r.longest).headers.length := List.length_pos_iff.mpr (hf.ok r.longest hlgm0).nonempty
   have hcons : consolidate r = .ok r := by
     apply C10_consolidate_noop_aux
     rw [hbl]
     simp [List.find?_cons, hroot]
   have hsame : ∀ r' : Repo, r'.arena = r.arena → r'.branches = r.branches → r'.longest = r.longest →
       ForestOK r' ∧ r'.branches = r.branches ∧ r'.longest = r.longest ∧
-      (∀ x ∈ r.branches, lastWork r'.arena x = lastWork r.arena x) := by
+      (∀ x ∈ r.branches, lastWork r'.arena x = lastWork r.arena x) ∧
+      (∀ x, x ≠ r.longest → r'.arena[x]? = r.arena[x]?) ∧
+      (∃ (c : Nat) (b' : Branch), c < (r.br r.longest).headers.length ∧ r'.arena[r.longest]? = some b' ∧
+        b'.headers = (r.br r.longest).headers.drop c ∧ b'.offset = (r.br r.longest).offset + (c : Int) ∧
+        b'.parentHeight = (r.br r.longest).parentHeight ∧
+        b'.hmap = ((r.br r.longest).headers.take c).foldl (fun m d => HMap.del m d.hdr.id) (r.br r.longest).hmap) := by
     intro r' ha hb hl
     refine ⟨⟨?_, by rw [ha, hb]; exact hf.linked, by rw [ha, hb]; exact hf.valid, by rw [ha, hb]; exact hf.len⟩, hb, hl,
-      fun x _ => by rw [ha]⟩
+      fun x _ => by rw [ha], fun x _ => by rw [ha],
+      ⟨0, r.br r.longest, hL0, by rw [ha]; exact hblg0, by simp, by simp, rfl, by simp⟩⟩
     intro bi hbi
     have : r'.br bi = r.br bi := by unfold Repo.br; rw [ha]
     rw [this]; exact hf.ok bi (hb ▸ hbi)
@@ -289,7 +303,7 @@ theorem forestOK_cleanWith (r : Repo) (hf : ForestOK r) (hrf : RootFirst r) (dep
               cases h1
             · exact h
         subst hpr
-        refine ⟨⟨?_, ?_, ?_, ?_⟩, ?_, ?_, ?_⟩
+        refine ⟨⟨?_, ?_, ?_, ?_⟩, ?_, ?_, ?_, harena, ⟨c, _, hc, harlg, p1, p2, p4, p6⟩⟩
         · intro bi hbi
           show BrCore ((r'.arena[bi]?).getD default)
           have hbi' : bi ∈ r.branches := by rw [hbl, ← hnbs]; exact hbi
